@@ -8,7 +8,7 @@
 //   run  <kind mep|team|ga|de> <strat std|alps|de|dealps> <mode step|whole|search> <seed>
 //        <individuals> <min_individuals> <layers> <tournament> <mate_zone> <elitism 0|1>
 //        <age_gap> <p_same> <p_cross> <p_mutation> <brood> <generations> <cache 0|1>
-//        <eval h|v|r> <evalmod> <shake_every> [<max_stuck_time> [<shake at generation 0: 0|1>]]
+//        <eval h|v|r|n> <evalmod> <shake_every> [<max_stuck_time> [<shake at generation 0: 0|1>]]
 //   mode sel: an ALPS population with <layers> layers of UNEQUAL sizes (real add_layer / set_allowed /
 //        pop_from_layer), then <generations> * 50 calls of selection.run() from that fixed state
 //   tune <class search|ga|de|src> <strat std|alps|de> <validator asis|holdout|dss> <rows>
@@ -92,6 +92,10 @@ public:
     const auto s(x.signature());
     const std::uint64_t h((s.data[0] ^ (s.data[1] >> 7))
                           + 0x9e3779b97f4a7c15ull * static_cast<unsigned>(g_salt));
+    // 'n': distinct values that differ by about 1e-11 of their magnitude (an
+    // absolute or relative tolerance in a comparison makes them look equal)
+    if (type_ == 'n')
+      return {-(1000000.0 + static_cast<double>(h % mod_) * 1e-5)};
     const double a(-static_cast<double>(h % mod_));
     if (type_ == 'v')
       return {a, -static_cast<double>((h >> 20) % 3)};
